@@ -91,7 +91,7 @@ def gen_specs(ctx):
     n = ctx.n(200, 2000)
     for _ in range(n):
         getset = ctx.rng.random() < 0.75
-        s = g.top("T", getset_dirs=getset, json_tags=True, generic=0.05, maxfields=4, maxdepth=2, selfembed=0.05, types_extra=newgen.EXTRA_TYPES_JSON)
+        s = g.top("T", getset_dirs=getset, json_tags=True, generic=0.05, maxfields=4, maxdepth=2, selfembed=0.05, types_extra=newgen.EXTRA_TYPES_JSON, generic_embed=0.1)
         s["typedoc"] = ctx.rng.choice(TYPEDOCS) if getset and ctx.rng.random() < 0.35 else None
         for m in s["members"]:
             if m["k"] == "e" and getset and ctx.rng.random() < 0.4 and not s["tparams"]:
